@@ -154,49 +154,6 @@ func init() {
 				return jwtrsassapss.NewPrivateKey(jwtrsassapss.PrivateKeyOpts{PublicKey: pub.(*jwtrsassapss.PublicKey), P: p, Q: q, D: d})
 			}})
 	}
-	// ---------------- JWT ECDSA / ML-DSA: public bytes in an options struct, private bytes as secretdata
-	jwtPair := func(pkg, variant string, cost int, p0 privateKey, pubArg, pubAcc, field string, getPub func(k key.Key) []byte,
-		mkPub func(b []byte) (key.Key, error), getPriv func(k key.Key) secretdata.Bytes, mkPriv func(sd secretdata.Bytes, pub key.Key) (key.Key, error)) {
-		pubRaw := getPub(must(p0.PublicKey()))
-		privRaw := getPriv(p0).Data(tok)
-		register(&Target{Name: pkg + ".PublicKey/" + variant, Cost: cost, Obs: obsKey,
-			New: func(c *Call) any {
-				c.Site(pkg+".NewPublicKey", pkg+".NewPublicKey", pkg+".PublicKeyOpts."+field)
-				k, err := mkPub(c.In(pubArg, pubRaw))
-				if !c.Check(err) {
-					return nil
-				}
-				return newKeyObject(k, must(mkPub(clone(pubRaw))), "none", p0)
-			},
-			Acc: []func(c *Call, o any){func(c *Call, o any) {
-				c.Site(pkg+".(PublicKey)."+pubAcc, pkg+".(PublicKey)."+pubAcc)
-				c.Out(pubArg, getPub(o.(*keyObject).k))
-			}}})
-		register(&Target{Name: pkg + ".PrivateKey/" + variant, Cost: cost, Obs: obsKey,
-			New: func(c *Call) any {
-				c.Site(pkg+".NewPublicKey", pkg+".NewPublicKey", pkg+".PublicKeyOpts."+field)
-				pub, err := mkPub(c.In(pubArg, pubRaw))
-				if !c.Check(err) {
-					return nil
-				}
-				c.Site(pkg+".NewPrivateKeyFromPublicKey", pkg+".NewPrivateKeyFromPublicKey", "secretdata.NewBytesFromData")
-				k, err := mkPriv(secretdata.NewBytesFromData(c.In("keyBytes", privRaw), tok), pub)
-				if !c.Check(err) {
-					return nil
-				}
-				return newKeyObject(k, must(mkPriv(secretdata.NewBytesFromData(clone(privRaw), tok), must(mkPub(clone(pubRaw))))), "none", p0)
-			},
-			Acc: []func(c *Call, o any){
-				func(c *Call, o any) {
-					c.Site(pkg+".(PrivateKey).PrivateKeyValue", pkg+".(PrivateKey).PrivateKeyValue", "secretdata.(Bytes).Data")
-					c.Out("keyBytes", getPriv(o.(*keyObject).k).Data(tok))
-				},
-				func(c *Call, o any) {
-					c.Site(pkg+".(PublicKey)."+pubAcc, pkg+".(PublicKey)."+pubAcc)
-					c.Out(pubArg, getPub(must(o.(*keyObject).k.(privateKey).PublicKey())))
-				},
-			}})
-	}
 	{
 		p0 := primaryKey(newHandle(jwt.ES256Template())).(*jwtecdsa.PrivateKey)
 		params := p0.Parameters().(*jwtecdsa.Parameters)
@@ -320,4 +277,48 @@ func init() {
 				},
 			}})
 	}
+}
+
+// ---------------- JWT ECDSA / ML-DSA: public bytes in an options struct, private bytes as secretdata
+func jwtPair(pkg, variant string, cost int, p0 privateKey, pubArg, pubAcc, field string, getPub func(k key.Key) []byte,
+	mkPub func(b []byte) (key.Key, error), getPriv func(k key.Key) secretdata.Bytes, mkPriv func(sd secretdata.Bytes, pub key.Key) (key.Key, error)) {
+	pubRaw := getPub(must(p0.PublicKey()))
+	privRaw := getPriv(p0).Data(tok)
+	register(&Target{Name: pkg + ".PublicKey/" + variant, Cost: cost, Obs: obsKey,
+		New: func(c *Call) any {
+			c.Site(pkg+".NewPublicKey", pkg+".NewPublicKey", pkg+".PublicKeyOpts."+field)
+			k, err := mkPub(c.In(pubArg, pubRaw))
+			if !c.Check(err) {
+				return nil
+			}
+			return newKeyObject(k, must(mkPub(clone(pubRaw))), "none", p0)
+		},
+		Acc: []func(c *Call, o any){func(c *Call, o any) {
+			c.Site(pkg+".(PublicKey)."+pubAcc, pkg+".(PublicKey)."+pubAcc)
+			c.Out(pubArg, getPub(o.(*keyObject).k))
+		}}})
+	register(&Target{Name: pkg + ".PrivateKey/" + variant, Cost: cost, Obs: obsKey,
+		New: func(c *Call) any {
+			c.Site(pkg+".NewPublicKey", pkg+".NewPublicKey", pkg+".PublicKeyOpts."+field)
+			pub, err := mkPub(c.In(pubArg, pubRaw))
+			if !c.Check(err) {
+				return nil
+			}
+			c.Site(pkg+".NewPrivateKeyFromPublicKey", pkg+".NewPrivateKeyFromPublicKey", "secretdata.NewBytesFromData")
+			k, err := mkPriv(secretdata.NewBytesFromData(c.In("keyBytes", privRaw), tok), pub)
+			if !c.Check(err) {
+				return nil
+			}
+			return newKeyObject(k, must(mkPriv(secretdata.NewBytesFromData(clone(privRaw), tok), must(mkPub(clone(pubRaw))))), "none", p0)
+		},
+		Acc: []func(c *Call, o any){
+			func(c *Call, o any) {
+				c.Site(pkg+".(PrivateKey).PrivateKeyValue", pkg+".(PrivateKey).PrivateKeyValue", "secretdata.(Bytes).Data")
+				c.Out("keyBytes", getPriv(o.(*keyObject).k).Data(tok))
+			},
+			func(c *Call, o any) {
+				c.Site(pkg+".(PublicKey)."+pubAcc, pkg+".(PublicKey)."+pubAcc)
+				c.Out(pubArg, getPub(must(o.(*keyObject).k.(privateKey).PublicKey())))
+			},
+		}})
 }
